@@ -158,8 +158,14 @@ def sizeNat (f : DField) : Nat :=
 
 def sizeTotal (fs : List DField) : Nat := (fs.map sizeNat).sum
 
-/-- `strings.HasPrefix(name, "Message")` and `name[len("Message"):]`, on the characters of the name -/
-def hasMsgPrefix (n : String) : Bool := "Message".toList.isPrefixOf n.toList
+/-- the two name checks of Initialize, on the characters of the name: `strings.HasPrefix(name, "Message")`, and the rest of the
+    name begins with an uppercase letter (`suffix == "" || suffix[0] < 'A' || suffix[0] > 'Z'` is refused: `msgGoToDef` drops the
+    first character of what follows `Message`) -/
+def suffixUpper : List Char → Bool
+  | c :: _ => isUpper c
+  | [] => false
+
+def hasMsgPrefix (n : String) : Bool := "Message".toList.isPrefixOf n.toList && suffixUpper (n.toList.drop 7)
 def msgSuffix (n : String) : String := String.ofList (n.toList.drop 7)
 
 /-- what Initialize stores once every check has passed -/
